@@ -93,7 +93,13 @@ The closure tables (`stageState`, `stageStateFuncfile`: the variables a stage bu
 library hands to the closure it returns) use `raceFreeClosures`: the builder's own body is the constructor
 (compile time, one goroutine), every function literal inside it is a flow that runs concurrently with
 itself (the same compiled stage is evaluated by every worker); calling a captured function value there is
-calling another stage, whose state is that builder's entry of the same table.
+calling another stage, whose state is that builder's entry of the same table.  A variable declared inside a
+literal that is itself only a builder (funcfile's `keyBuilderToFunction` returns one) and captured by a literal
+nested deeper is tracked the same way, with `depth` counted from the declaring literal; a captured variable
+declared inside a per-evaluation literal (one taking an expression context) is made afresh by every evaluation
+and is listed in `…PerCall` instead (these packages contain no `go` statement: `spawns`).  `stageClass` names
+the discipline each captured variable follows.  Tables: `stageState` (stdlib), `stageStateFuncfile`,
+`stageStateExpressions` (pkg/expressions: joined argument stages, literals), `stageStateStdmath`.
 
 The monitor tables (`aggregation`, `multiterm`, `termrenderers`) carry no locks of their own: these
 objects are only entered from `aggregator.Sample` and from `writeOutput`, both of which the role table
@@ -180,6 +186,31 @@ def referentGuarded (constructors : List String) (accs : List Acc) : Bool :=
   let s := shared constructors accs
   s.all fun a => a.obj != "ref" || a.lock != "" || a.atomic ||
     s.all fun b => !(b.obj == "ref" && b.region == a.region && b.write) || ordered a b
+
+/-- Sharing class of one captured variable of a closure table, from what the literals nested below its declaration
+    (the code every worker runs) do with it and with what it refers to:
+    `immutable` – only read once the closure exists; `pooled` – the only writes are `ObjectPool.Get/Return` (race free
+    by the pool's own table; the object handed out is owned by the caller until it is returned); `atomic` – every
+    write goes through sync/atomic (or a self-synchronised type); `mutable` – a plain write at evaluation time. -/
+def evalWrites (accs : List Acc) : List Acc := accs.filter fun a => a.depth != 0 && a.write
+
+def classOfWrites (w : List Acc) (field : String) : String :=
+  let s := w.filter fun a => a.field == field
+  if s.isEmpty then "immutable"
+  else if s.all (fun a => a.atomic && a.how.startsWith "call:slicepool.ObjectPool.") then "pooled"
+  else if s.all (·.atomic) then "atomic"
+  else "mutable"
+
+def stageClass (accs : List Acc) (field : String) : String := classOfWrites (evalWrites accs) field
+
+/-- The captured variables of a closure table with their classes. -/
+def stageClasses (fields : List Fld) (accs : List Acc) : List (String × String) :=
+  let w := evalWrites accs
+  fields.map fun f => (f.name, classOfWrites w f.name)
+
+/-- The variables of a given class. -/
+def ofClass (fields : List Fld) (accs : List Acc) (c : String) : List String :=
+  ((stageClasses fields accs).filter fun p => p.2 == c).map (·.1)
 
 def showAcc (a : Acc) : String :=
   s!"{a.fn}:{a.line}:{a.field}/{a.obj}:{if a.write then "write" else "read"}:{if a.atomic then "atomic" else "plain"}:lock={if a.lock == "" then "none" else a.lock ++ "@" ++ a.mutex}:{a.how}"
